@@ -84,12 +84,20 @@ PROPS = {
 # Further properties are configured by one fragment each: bin/props.d/<id>.py defines PROP (the dict
 # above), and optionally NOT_YET_REASON / HOOKS (list of hook-commit lines).
 import glob as _glob, os as _os
-for _f in sorted(_glob.glob(_os.path.join(_os.path.dirname(_os.path.abspath(__file__)), 'props.d', '*.py'))):
+# A fragment takes part in MANIFEST.json only once the integrator has listed its id in bin/props.d/ENABLED
+# (bin/check itself accepts any fragment, so that a property can be run while it is being built).
+_dir = _os.path.join(_os.path.dirname(_os.path.abspath(__file__)), 'props.d')
+_en = _os.path.join(_dir, 'ENABLED')
+ENABLED = set(open(_en).read().split()) if _os.path.exists(_en) else set()
+DRAFT = set()
+for _f in sorted(_glob.glob(_os.path.join(_dir, '*.py'))):
     _ns = {}
     exec(compile(open(_f).read(), _f, 'exec'), _ns)
     _id = _os.path.basename(_f)[:-3]
     if 'PROP' in _ns:
-        PROPS[_id] = _ns['PROP']; NOT_YET.pop(_id, None)
+        PROPS[_id] = _ns['PROP']
+        if _id in ENABLED: NOT_YET.pop(_id, None)
+        else: DRAFT.add(_id)
     elif 'NOT_YET_REASON' in _ns:
         NOT_YET[_id] = _ns['NOT_YET_REASON']
     for _h in _ns.get('HOOKS', []):
